@@ -33,13 +33,15 @@ enum Diff {
   D_PREFIX,
   D_SUFFIX,
   D_EQUAL_WHERE_SUPPORTS_MEET,  // differs only outside the hull of both windows
+  D_TWO_MOVED_SUM_PRESERVED,    // same size, same sum of points, two points moved
   D_COUNT
 };
 const char *diffName(int d) {
   static const char *n[] = {"twin",         "moved-first",  "moved-last",
                             "moved-inner",  "extra-left",   "extra-right",
                             "extra-inside", "prefix",       "suffix",
-                            "equal-where-supports-meet"};
+                            "equal-where-supports-meet",
+                            "two-moved-sum-preserved"};
   return n[d];
 }
 
@@ -138,6 +140,14 @@ void gridCase(Ctx &c, Rng &g, int diff, int entry) {
     case D_SUFFIX:
       p2.erase(p2.begin());
       break;
+    case D_TWO_MOVED_SUM_PRESERVED: {
+      // neighbours k, k+1 move towards each other by the same dyadic amount
+      const size_t k = (size_t)g.range(0, (int64_t)n - 2);
+      const R d = (p2[k + 1] - p2[k]) / 4;
+      p2[k] += d;
+      p2[k + 1] -= d;
+      break;
+    }
     default: {
       // keep both windows inside [1, n-1) and move the outermost points only
       auto clampW = [&](Win &w) {
@@ -162,7 +172,15 @@ void gridCase(Ctx &c, Rng &g, int diff, int entry) {
   }
   const bool different = diff != D_TWIN;
   const Grid<T> g1 = mkGrid<T>(p1);
-  const Grid<T> g2 = mkGrid<T>(p2);
+  std::vector<T> v2 = mkVec<T>(p2);
+  if constexpr (!ST<T>::exact)
+    if (diff == D_TWIN)  // an equal twin may spell a zero point as -0.0
+      for (auto &x : v2)
+        if (x == 0) {
+          x = -x;
+          c.count("twin:negative-zero");
+        }
+  const Grid<T> g2{v2};
   Spline<T, oa> a =
       mkSpline<T, oa>(g1, wa.start, wa.end, genCoefM(g, dyadic, wa.nint(), oa));
   const CoefM cmb = genCoefM(g, dyadic, wb.nint(), ob);
@@ -446,12 +464,82 @@ void generatorCase(Ctx &c, Rng &g, int diff) {
     c.violation("C08", "generator-refuses-matching-grid", desc + " " + out.what);
 }
 
+// A long-lived operator with a spline factor: its last successful use was on
+// a separate-but-equal grid instance that has been destroyed since; a
+// different grid of the same size (very likely at the same address) must
+// still be refused.
+template <typename T>
+void persistentOperatorCase(Ctx &c, Rng &g) {
+  using namespace bspline::operators;
+  using namespace bspline::integration;
+  static std::optional<SplineOperator<T, 1>> op;
+  static std::vector<R> pts;
+  const bool dyadic = !ST<T>::exact;
+  if (!op || c.caseId % 512 == 14) {
+    pts = genGrid(g, dyadic, PLACEMENT_MIN_POINTS, 10);
+    const Grid<T> gv = mkGrid<T>(pts);
+    op.emplace(mkSpline<T, 1>(gv, 0, pts.size(), genCoefM(g, dyadic, pts.size() - 1, 1)));
+  }
+  const size_t n = pts.size();
+  const Win w = genWin(g, n);
+  const CoefM cm = genCoefM(g, dyadic, w.nint(), 2);
+  bool okEqual = true;
+  std::string what;
+  {
+    const Grid<T> equal = mkGrid<T>(pts);  // separate but equal instance
+    const Spline<T, 2> s = mkSpline<T, 2>(equal, w.start, w.end, cm);
+    try {
+      auto r = *op * s;
+      const T lf = LinearForm{*op}(s);
+      const T bf = BilinearForm{*op}(s, s);
+      (void)r;
+      (void)lf;
+      (void)bf;
+    } catch (const std::exception &e) {
+      okEqual = false;
+      what = e.what();
+    }
+  }  // the equal instance and everything on it are destroyed here
+  if (!okEqual)
+    c.violation("C08", "equal-grids-refused/persistent-operator", what);
+  std::vector<R> other = pts;
+  const size_t k = (size_t)g.range(0, (int64_t)n - 1);
+  other[k] += (k + 1 < n ? (other[k + 1] - other[k]) : R(1)) / 2;
+  const Grid<T> different = mkGrid<T>(other);  // same size, other points
+  const Spline<T, 2> s2 = mkSpline<T, 2>(different, w.start, w.end, cm);
+  int refused = 0;
+  auto must = [&](auto &&f) {
+    try {
+      f();
+    } catch (const BSplineException &e) {
+      if (e.getErrorCode() == ErrorCode::DIFFERING_GRIDS) refused++;
+    } catch (const std::exception &) {
+    }
+  };
+  must([&] { auto r = *op * s2; (void)r; });
+  must([&] { const T v = LinearForm{*op}(s2); (void)v; });
+  must([&] { const T v = BilinearForm{*op}(s2, s2); (void)v; });
+  if (refused != 3)
+    c.violation("C08", "computed-across-grids/persistent-operator",
+                "a long-lived SplineOperator whose previous operand lived on a "
+                "destroyed equal grid accepted a different grid of the same "
+                "size: " + gridStr(pts) + " vs " + gridStr(other) + " operand window " +
+                    winStr(w));
+  else
+    c.count("persistent-operator:refused");
+  c.count("calls", 6);
+}
+
 template <typename T>
 void runCase(Ctx &c) {
   Rng g = c.rng();
   const uint64_t k = c.caseId;
   if (k % 16 == 15) {
     generatorCase<T>(c, g, (int)(k / 16));
+    return;
+  }
+  if (k % 16 == 14) {
+    persistentOperatorCase<T>(c, g);
     return;
   }
   const int diff = (int)(k % D_COUNT);
